@@ -119,7 +119,7 @@ class Rec(Ty):
 
     kind = "rec"
 
-    def __init__(self, name, **fields):
+    def __init__(self, name, /, **fields):
         self.name = name
         self.fields = dict(fields)
 
@@ -366,7 +366,7 @@ class Obj(Ty):
     kind = "obj"
     heap = True
 
-    def __init__(self, cls, **fields):
+    def __init__(self, cls, /, **fields):
         self.cls = cls
         self.fields = {}
         self.optional = set()  # attributes that may be missing (AttributeError on read)
@@ -389,7 +389,7 @@ class DRec(Ty):
     kind = "drec"
     heap = True
 
-    def __init__(self, name, optional=(), **fields):
+    def __init__(self, name, /, optional=(), **fields):
         self.name = name
         self.fields = dict(fields)
         self.optional = tuple(optional)
